@@ -138,6 +138,7 @@ func buildPrefix() *prefix {
 			ev.HarnessError("reference model refuses prefix block")
 		}
 	}
+	p.model.Compact(8)
 	return p
 }
 
@@ -164,6 +165,9 @@ func buildRetargetPrefix() *prefix {
 		}
 		if nd := p.model.Add(b); nd == nil || !p.model.Valid(nd) {
 			ev.HarnessError("reference model refuses retarget prefix block %d", h)
+		}
+		if h%64 == 0 {
+			p.model.Compact(8)
 		}
 		p.cb[h] = op(b.Txs[0].TxID(), 0)
 		p.blocks = append(p.blocks, b)
